@@ -12,5 +12,9 @@ python3 gen_frames.py CfgDocs "(s.envCfg, s.configValuesCache, s.out)" "the devi
 python3 gen_frames.py Refs "(s.nextUid, s.descriptors, s.out)" "uids and descriptor references" templates/Refs.spec.lean
 python3 gen_frames.py NodupDesc "s.descriptors" "distinctness of the stream names in _descriptors" templates/NodupDesc.spec.lean
 python3 gen_frames.py DescWF "s.descriptors" "well-formedness of stored descriptors (keys = keys of their objects)" templates/DescWF.spec.lean
+python3 gen_frames.py EvLog "(s.out, s.log)" "output and ghost log growing together (event documents = logged emits, in order)" templates/EvLog.spec.lean
+python3 gen_frames.py Ctr "(s.seq, s.seqCopy, s.cpCleared, s.log, s.streams, akeys s.descriptors)" "the sequence counters, their copy, the ghost log, the stream registry and the names in _descriptors"
+cd ../lean && lake build BlueskyVerif.Lemmas.BundlerKeepsCtr && cd ../harness
+python3 gen_frames.py CtrRef "(s.seq, s.seqCopy, s.cpCleared, s.log, s.streams, akeys s.descriptors)" "refinement of the abstract counter machine by the ghost log" templates/CtrRef.spec.lean
 for f in templates/*.extra; do [ -f "$f" ] && sh "$f"; done
 true
